@@ -158,12 +158,16 @@ UserOpts == [Q1 |-> [max |-> Inf, limit |-> "inf"],
              Q3 |-> [max |-> Inf, limit |-> "near"],
              Q4 |-> [max |-> 3, limit |-> "inf"],
              Q5 |-> [max |-> Inf, limit |-> "inf"]]
-Targets == {"P0", "P1", "P2"}
-EqPresent == {"S1", "S2"}
+Targets == {"P0", "P1", "P2", "P3"}
+\* The indexed geometry can be replaced (EdgeQuery.Reset on every query object, ShapeIndex.Reset,
+\* new shapes): the variable epoch counts the replacements, even = {S1,S2}, odd = {S2,S3}.
+EqPresent == IF epoch % 2 = 0 THEN {"S1", "S2"} ELSE {"S2", "S3"}
 \* number of edges within the limit of the target
 InRange(t, limit) ==
     IF limit = "inf" \/ limit = "far" THEN TotalEdges(EqPresent)
-    ELSE IF t = "P1" THEN NumEdgesOf["S1"] ELSE IF t = "P2" THEN NumEdgesOf["S2"] ELSE 0
+    ELSE IF t = "P0" THEN 0
+    ELSE LET s == CHOOSE x \in ShapeNames : CentreOf[x] = t
+         IN  IF s \in EqPresent THEN NumEdgesOf[s] ELSE 0
 
 FindEdgesAns(o, t) == Min2(o.max, InRange(t, o.limit))
 DistanceAns(o, t) == IF InRange(t, o.limit) = 0 THEN "inf" ELSE "pos"
@@ -183,10 +187,16 @@ IsDistanceLess(q, t, d) ==
     /\ UNCHANGED <<shapes, nextID, pendPos, status, indexed, epoch, cpq, ceq, inv, lidx>>
     /\ h' = Log([a |-> "IsDistanceLess", q |-> q, x |-> t, d |-> d, r |-> IsLessAns(t, d), eff |-> UserOpts[q]])
 
+SwitchGeo ==
+    /\ epoch' = epoch + 1
+    /\ UNCHANGED <<shapes, nextID, pendPos, status, indexed, cpq, ceq, eff, inv, lidx>>
+    /\ h' = Log([a |-> "SwitchGeo", q |-> "-", x |-> "-", r |-> "-"])
+
 EqNext ==
-    \E q \in Queries, t \in Targets :
-        \/ FindEdges(q, t) \/ Distance(q, t)
-        \/ \E d \in {"near", "far"} : IsDistanceLess(q, t, d)
+    \/ \E q \in Queries, t \in Targets :
+          \/ FindEdges(q, t) \/ Distance(q, t)
+          \/ \E d \in {"near", "far"} : IsDistanceLess(q, t, d)
+    \/ SwitchGeo
 
 \* ====================================================================== loop
 Objs == {"L", "PG", "PG2"}   \* PG: shell with a hole; PG2: two disjoint shells, the smaller one first
